@@ -1,7 +1,201 @@
-(* family 13, part B: stub, to be filled *)
+(* family 13, part B (ops 1340-1369): Finished PDU and Metadata PDU. *)
 From Coq Require Import ZArith List Bool.
-From SP Require Import Base.Result Base.Bytes Run.Marshal.
+From SP Require Import Base.Result Base.Bytes Run.Marshal Model.PduHeader Run.DispHdr
+  Model.FileDirective Model.Lv Model.Tlv Model.Finished Model.Metadata
+  Spec.PduHeaderSpec Spec.PduBSpec.
 Import ListNotations.
 Open Scope Z_scope.
 
-Definition run_pdu_b (op : Z) (a : args) : args := [[1; 97]].
+Definition pack_res (r : res bytes) : list Z :=
+  match r with Ok b => 0 :: b | Err e => [1; err_code e] end.
+
+(* ---- case-line encodings ----
+   a filestore response: action :: status :: len(first) :: len(second) :: first ++ second ++ msg
+   (built with FileStoreResponseTlv(action, status, first, second, CfdpLv(msg)));
+   an optional octet string: [0] = None, 1 :: octets = Some;
+   a CfdpTlv: type :: value *)
+Definition resp_of_list (l : list Z) : res fsresp :=
+  match l with
+  | a :: st :: l1 :: l2 :: r =>
+      let first := firstn (Z.to_nat l1) r in
+      let second := firstn (Z.to_nat l2) (skipn (Z.to_nat l1) r) in
+      let m := skipn (Z.to_nat l1 + Z.to_nat l2) r in
+      do msg <- lv_new m;
+      Ok {| fp_action := a; fp_status := st; fp_first := first; fp_second := second; fp_msg := msg |}
+  | _ => Err EOther
+  end.
+Fixpoint resps_of_lists (l : list (list Z)) : res (list fsresp) :=
+  match l with
+  | [] => Ok []
+  | x :: r => do a <- resp_of_list x; do b <- resps_of_lists r; Ok (a :: b)
+  end.
+Definition resp_enc (r : fsresp) : list Z :=
+  fp_action r :: fp_status r :: len (fp_first r) :: len (fp_second r)
+  :: fp_first r ++ fp_second r ++ fp_msg r.
+
+(* EntityIdTlv(value) *)
+Definition fault_of_list (l : list Z) : res (option tlv) :=
+  match l with
+  | 1 :: v => do t <- entity_new v; Ok (Some t)
+  | _ => Ok None
+  end.
+Definition fault_enc (o : option tlv) : list Z :=
+  match o with None => [0] | Some t => 1 :: tlv_value t end.
+
+Definition tlv_of_list (l : list Z) : res tlv :=
+  match l with ty :: v => tlv_new ty v | [] => Err EOther end.
+Fixpoint tlvs_of_lists (l : list (list Z)) : res (list tlv) :=
+  match l with
+  | [] => Ok []
+  | x :: r => do a <- tlv_of_list x; do b <- tlvs_of_lists r; Ok (a :: b)
+  end.
+Definition tlv_enc (t : tlv) : list Z := tlv_type t :: tlv_value t.
+
+(* ---- Finished: ids, flags, [cc; dc; fs], fault, [n], n responses, then op-specific lists ---- *)
+Definition fin_params_of_args (a : args) : res FinParams :=
+  do fl <- fault_of_list (lst 3 a);
+  do rs <- resps_of_lists (firstn (Z.to_nat (int 4 0 a)) (skipn 5 a));
+  Ok {| fn_cc := int 2 0 a; fn_dc := int 2 1 a; fn_fs := int 2 2 a; fn_resps := rs; fn_fault := fl |}.
+Definition fin_extra (a : args) : args := skipn (5 + Z.to_nat (int 4 0 a)) a.
+
+Definition fin_of_args (a : args) : res (FinishedPdu * PduConfig * FinParams) :=
+  do c <- conf_of_args (lst 0 a) (lst 1 a);
+  do q <- fin_params_of_args a;
+  fin_new c q.
+
+Definition fn_fields (q : FinParams) : args :=
+  [[fn_cc q; fn_dc q; fn_fs q]; fault_enc (fn_fault q); [Z.of_nat (length (fn_resps q))]]
+  ++ map resp_enc (fn_resps q).
+
+Definition fin_fields (p : FinishedPdu) : args :=
+  hdr_fields (fd_hdr (fin_fdir p)) ++ [[fd_type (fin_fdir p); fin_packet_len p]] ++ fn_fields (fin_params p).
+
+(* history of setter calls, one list each:
+   [0] fault_location = None | 1 :: value  fault_location = EntityIdTlv(value)
+   [2] file_store_responses = None | 3 :: k  file_store_responses = the next k lists
+   4 :: cc  condition_code = cc *)
+Fixpoint fin_apply (fuel : nat) (p : FinishedPdu) (ops : list (list Z)) : res FinishedPdu :=
+  match fuel with
+  | O => Ok p
+  | S fuel' =>
+    match ops with
+    | [] => Ok p
+    | (0 :: _) :: r => do p' <- fin_set_fault p None; fin_apply fuel' p' r
+    | (1 :: v) :: r => do t <- entity_new v; do p' <- fin_set_fault p (Some t); fin_apply fuel' p' r
+    | (2 :: _) :: r => do p' <- fin_set_resps p None; fin_apply fuel' p' r
+    | (3 :: k :: _) :: r =>
+        do rs <- resps_of_lists (firstn (Z.to_nat k) r);
+        do p' <- fin_set_resps p (Some rs); fin_apply fuel' p' (skipn (Z.to_nat k) r)
+    | (4 :: cc :: _) :: r => do p' <- fin_set_cc p cc; fin_apply fuel' p' r
+    | _ :: r => fin_apply fuel' p r
+    end
+  end.
+
+(* ---- Metadata: ids, flags, [closure; checksum type; file size], source name, dest name,
+   [has_options; n], n options, then op-specific lists ---- *)
+Definition md_params_of_args (a : args) : MdParams :=
+  {| mp_closure := int 2 0 a; mp_cstype := int 2 1 a; mp_fsize := int 2 2 a;
+     mp_src := opt_bytes (lst 3 a); mp_dst := opt_bytes (lst 4 a) |}.
+Definition md_options_of_args (a : args) : res (option (list tlv)) :=
+  if int 5 0 a =? 0 then Ok None else
+  do l <- tlvs_of_lists (firstn (Z.to_nat (int 5 1 a)) (skipn 6 a)); Ok (Some l).
+Definition md_extra (a : args) : args := skipn (6 + Z.to_nat (int 5 1 a)) a.
+
+Definition md_of_args (a : args) : res (MetadataPdu * PduConfig * MdParams) :=
+  do c <- conf_of_args (lst 0 a) (lst 1 a);
+  do o <- md_options_of_args a;
+  md_new c (md_params_of_args a) o.
+
+Definition opts_enc (o : option (list tlv)) : args :=
+  match o with
+  | None => [[0; 0]]
+  | Some l => [1; Z.of_nat (length l)] :: map tlv_enc l
+  end.
+(* result of a name getter: [0] None, 1 :: octets, [2] UnicodeDecodeError *)
+Definition name_get_enc (v : lv) : list Z :=
+  match md_name_get v with
+  | Ok None => [0]
+  | Ok (Some s) => 1 :: s
+  | Err _ => [2]
+  end.
+Definition mp_fields (q : MdParams) : args :=
+  [[mp_closure q; mp_cstype q; mp_fsize q]; of_opt_bytes (mp_src q); of_opt_bytes (mp_dst q)].
+Definition md_fields (p : MetadataPdu) : args :=
+  hdr_fields (fd_hdr (md_fdir p)) ++
+  [[fd_type (md_fdir p); md_packet_len p];
+   [mp_closure (md_params p); mp_cstype (md_params p); mp_fsize (md_params p)];
+   md_src_lv p; md_dst_lv p; name_get_enc (md_src_lv p); name_get_enc (md_dst_lv p)]
+  ++ opts_enc (md_options p).
+
+(* setter history: [0] options = None | 1 :: k options = next k lists
+   [2] source_file_name = None | 3 :: octets source_file_name = str
+   [4] dest_file_name = None | 5 :: octets dest_file_name = str *)
+Fixpoint md_apply (fuel : nat) (p : MetadataPdu) (ops : list (list Z)) : res MetadataPdu :=
+  match fuel with
+  | O => Ok p
+  | S fuel' =>
+    match ops with
+    | [] => Ok p
+    | (0 :: _) :: r => do p' <- md_set_options p None; md_apply fuel' p' r
+    | (1 :: k :: _) :: r =>
+        do l <- tlvs_of_lists (firstn (Z.to_nat k) r);
+        do p' <- md_set_options p (Some l); md_apply fuel' p' (skipn (Z.to_nat k) r)
+    | (2 :: _) :: r => do p' <- md_set_src p None; md_apply fuel' p' r
+    | (3 :: n) :: r => do p' <- md_set_src p (Some n); md_apply fuel' p' r
+    | (4 :: _) :: r => do p' <- md_set_dst p None; md_apply fuel' p' r
+    | (5 :: n) :: r => do p' <- md_set_dst p (Some n); md_apply fuel' p' r
+    | _ :: r => md_apply fuel' p r
+    end
+  end.
+
+Definition eq_res (r : res bool) : list Z :=
+  match r with Ok b => [0; b2z b] | Err e => [1; err_code e] end.
+
+Definition run_pdu_b (op : Z) (a : args) : args :=
+  match op with
+  (* FinishedPdu(conf, params): fields, then the caller's PduConfig and FinishedParams afterwards *)
+  | 1340 => ret (fun r => let '(p, c, q) := r in
+                          fin_fields p ++ [conf_ids c; conf_flags c] ++ fn_fields q)
+                (fin_of_args a)
+  (* .pack() *)
+  | 1341 => ret (fun b => [b]) (do r <- fin_of_args a; fin_pack (fst (fst r)))
+  (* FinishedPdu.unpack(data) *)
+  | 1342 => ret fin_fields (fin_unpack (lst 0 a))
+  (* FinishedPdu.unpack(data).pack() *)
+  | 1343 => ret (fun b => [b]) (do p <- fin_unpack (lst 0 a); fin_pack p)
+  (* p = FinishedPdu(...); p2 = unpack(p.pack() ++ suffix): [p2 == p], p2.pack(), fields of p2 *)
+  | 1344 => ret (fun r => r)
+              (do r <- fin_of_args a;
+               let p := fst (fst r) in
+               do b <- fin_pack p;
+               do p2 <- fin_unpack (b ++ nth 0 (fin_extra a) []);
+               Ok (eq_res (fin_eq p2 p) :: pack_res (fin_pack p2) :: fin_fields p2))
+  (* constructor, then a history of setter calls: packet_len, pack, pack again, fields *)
+  | 1345 => ret (fun p => [fin_packet_len p] :: pack_res (fin_pack p) :: pack_res (fin_pack p) :: fin_fields p)
+              (do r <- fin_of_args a; fin_apply (length a) (fst (fst r)) (fin_extra a))
+  (* MetadataPdu(conf, params, options) *)
+  | 1350 => ret (fun r => let '(p, c, q) := r in
+                          md_fields p ++ [conf_ids c; conf_flags c] ++ mp_fields q)
+                (md_of_args a)
+  | 1351 => ret (fun b => [b]) (do r <- md_of_args a; md_pack (fst (fst r)))
+  | 1352 => ret md_fields (md_unpack (lst 0 a))
+  | 1353 => ret (fun b => [b]) (do p <- md_unpack (lst 0 a); md_pack p)
+  | 1354 => ret (fun r => r)
+              (do r <- md_of_args a;
+               let p := fst (fst r) in
+               do b <- md_pack p;
+               do p2 <- md_unpack (b ++ nth 0 (md_extra a) []);
+               Ok ([b2z (md_eqb p2 p)] :: pack_res (md_pack p2) :: md_fields p2))
+  | 1355 => ret (fun p => [md_packet_len p] :: pack_res (md_pack p) :: pack_res (md_pack p) :: md_fields p)
+              (do r <- md_of_args a; md_apply (length a) (fst (fst r)) (md_extra a))
+  (* Spec side (independent oracle): the layouts of (conf fields, params) *)
+  | 1360 => match fin_params_of_args a with
+            | Ok q => [[0]; fin_layout (hdr_conf_raw (lst 0 a) (lst 1 a)) q]
+            | Err e => ret_err e
+            end
+  | 1361 => match md_options_of_args a with
+            | Ok o => [[0]; md_layout (hdr_conf_raw (lst 0 a) (lst 1 a)) (md_params_of_args a) o]
+            | Err e => ret_err e
+            end
+  | _ => [[1; 97]]
+  end.
